@@ -284,7 +284,7 @@ def adaptive_item(item, res, on_v):
 
 
 # ----------------------------------------------------------------- adaptive sampler driven by a condition ---
-COND_KINDS = ["pinn", "pinn2out", "deepritz", "periodic", "integro", "hpm_sampler", "pideeponet"]
+COND_KINDS = ["pinn", "pinn2out", "deepritz", "periodic", "integro", "hpm_sampler", "pideeponet", "pinn_nograd", "deepritz_nograd"]
 
 
 def adaptive_in_condition(item, res, on_v):
@@ -292,6 +292,10 @@ def adaptive_in_condition(item, res, on_v):
     per-point losses recomputed independently from the points the residual function saw, must produce the very same point sets
     (both runs answer the random source identically, so any difference is a difference in the losses handed over)."""
     kind, variant, n = item["cond"], item["variant"], item["n"]
+    extra = {}
+    if kind.endswith("_nograd"):
+        # conditions that are evaluated without tracking input gradients hand their loss over just the same
+        kind, extra = kind[:-len("_nograd")], {"track_gradients": False}
     X, T, U = Space({"x": 2}), Space({"t": 1}), Space({"u": 1 if kind != "pinn2out" else 2})
     S, Cn = tp.samplers, tp.conditions
     calls = 4
@@ -319,12 +323,12 @@ def adaptive_in_condition(item, res, on_v):
             def res_fn(u, x):
                 seen.append(x.detach().clone())
                 return u - x[:, :1] * x[:, 1:] * 3.0
-            return Cn.PINNCondition(model, sampler, res_fn), (lambda x: model(Points(x, X)).as_tensor - x[:, :1] * x[:, 1:] * 3.0)
+            return Cn.PINNCondition(model, sampler, res_fn, **extra), (lambda x: model(Points(x, X)).as_tensor - x[:, :1] * x[:, 1:] * 3.0)
         if kind == "deepritz":
             def res_fn(u, x):
                 seen.append(x.detach().clone())
                 return u ** 2 + x[:, :1]
-            return Cn.DeepRitzCondition(model, sampler, res_fn), (lambda x: model(Points(x, X)).as_tensor ** 2 + x[:, :1])
+            return Cn.DeepRitzCondition(model, sampler, res_fn, **extra), (lambda x: model(Points(x, X)).as_tensor ** 2 + x[:, :1])
         if kind == "hpm_sampler":
             def res_fn(x):
                 seen.append(x.detach().clone())
@@ -378,7 +382,7 @@ def adaptive_in_condition(item, res, on_v):
             return Cn.PeriodicCondition(model, per, res_fn, non_periodic_sampler=sampler), ref
         raise ValueError(kind)
 
-    name = "%s|%s|n=%d" % (kind, variant, n)
+    name = "%s|%s|n=%d" % (item["cond"], variant, n)
     res["states"].append("cond|" + name)
     model = mk_model()
     try:
@@ -441,11 +445,44 @@ def adaptive_in_condition(item, res, on_v):
     res["outcomes"].append("cond|%s|kept=%d" % (name, kept))
 
 
+def static_in_functionset(item, res, on_v):
+    """a function set draws its parameters through its parameter sampler once per sample_params() call: with a STATIC
+    parameter sampler of interval r the same parameter set is used r times, then a fresh one (the ticket sampler makes
+    the draws observable)"""
+    from torchphysics.problem.domains import CustomFunctionSet
+    from torchphysics.problem.spaces import FunctionSpace
+    for r in (1, 2, 3, math.inf):
+        class KTicket(Ticket):
+            def sample_points(self, params=Points.empty(), device="cpu", **kw):
+                self.t += 1
+                return Points(torch.tensor([[float(self.t)]]), Space({"k": 1}))
+        base = KTicket()
+        fs = FunctionSpace(tp.domains.Interval(Space({"t": 1}), 0, 1), Space({"e": 1}))
+        fset = CustomFunctionSet(fs, base.make_static(resample_interval=r), lambda k, t: k * t)
+        got = []
+        try:
+            for _ in range(8):
+                fset.sample_params()
+                got.append(tick(fset.param_batch))
+                res["transitions"] += 1
+        except Exception as e:
+            on_v("C15|static-in-functionset|error|%s" % type(e).__name__, "interval %s: sample_params raised %s: %s" % (r, type(e).__name__, str(e)[:100]))
+            continue
+        want = [1 + (i // r if r != math.inf else 0) for i in range(8)]
+        res["evals"] += 1
+        res["states"].append("fset-static|%s" % r)
+        if got != want:
+            on_v("C15|static-in-functionset|protocol", "function set with a static parameter sampler of interval %s: successive sample_params() use the parameter sets %s, the documented protocol gives %s" % (r, got, want))
+        else:
+            res["outcomes"].append("fset-static|%s" % r)
+
+
 # ----------------------------------------------------------------- driver -----------------
 def items(tier):
     out = [{"name": "static|r0=%s" % r, "kind": "static", "r0": (99 if r == math.inf else r), "tier": tier, "cost": 5} for r in INTERVALS]
     out.append({"name": "tlc-conformance", "kind": "tlc", "tier": tier, "cost": 9})
     out.append({"name": "nonstatic-fresh", "kind": "nonstatic", "tier": tier})
+    out.append({"name": "static-in-functionset", "kind": "fset_static", "tier": tier})
     for n in BOUNDS[tier]["n"]:
         for dom in ("I01", "SQ", "C_t"):
             for variant in ("threshold", "random"):
@@ -499,6 +536,8 @@ def run_item(item):
         res["traces"] = res["evals"] = n
         res["outcomes"] = ["tlc-edge|%d" % i for i in range(n)]
         res["samples"] = [{"engine": "B", "tlc_distinct_states": g["distinct"], "edges_replayed": n}]
+    elif item["kind"] == "fset_static":
+        static_in_functionset(item, res, on_v)
     elif item["kind"] == "adaptive_cond":
         adaptive_in_condition(item, res, on_v)
     elif item["kind"] == "nonstatic":
